@@ -39,7 +39,8 @@ HEADER = ("From Coq Require Import ZArith List Bool.\nFrom TV Require Import mod
           "Definition acc (p : position) (m : mv) : bool := match move p m with Some _ => true | None => false end.\n"
           "Fixpoint nodupb (l : list mv) : bool := match l with [] => true | a :: t => negb (existsb (mv_eqb a) t) && nodupb t end.\n")
 
-MAX_REPORT = 6      # replays written per clause and run
+MAX_REPORT = 3      # replays written per clause and run
+MAX_TOTAL = 9       # concrete (position, move) replays written per run
 
 
 # --------------------------------------------------------------------------
@@ -362,7 +363,7 @@ def _wf_moves(n):
 
 def report(run, p, clause, m, detail, reported):
     short = clause.split(" (")[0]
-    if reported[short] >= MAX_REPORT:
+    if reported[short] >= MAX_REPORT or sum(reported.values()) >= MAX_TOTAL:
         return
     reported[short] += 1
     mk = "none" if m is None else f"{m.x},{m.y},{m.type.name},{'-' if m.slides is None else '.'.join(map(str, m.slides))}"
@@ -439,9 +440,9 @@ def correspondence(run):
         play.sort(key=lambda x: not nontrivial(x[0]))
         chosen += (cons[: want // 2] + play[: want - want // 2])
     chosen_keys = {pos_key(p) for p, _ in chosen}
-    for p in gen_disagree:       # a position where model and implementation list different moves: run the oracle there too
-        if pos_key(p) not in chosen_keys:
-            chosen.append((p, "gen-disagreement"))
+    # positions where model and implementation list different moves: run the oracle there too (smallest boards first)
+    extra = [p for p in sorted(gen_disagree, key=lambda q: q.size) if pos_key(p) not in chosen_keys]
+    chosen += [(p, "gen-disagreement") for p in extra[:10]]
     cl = core.Cases(ID, "legal", HEADER, "position * list mv * list (mv * bool)",
                     "fun c => let '(p, a, ill) := c in let L := filter (acc p) (table (size p)) in "
                     "nodupb a && (Nat.eqb (length a) (length L)) && forallb (fun m => existsb (mv_eqb m) L) a && "
@@ -482,17 +483,27 @@ def correspondence(run):
     run.extra["universe_sizes"] = {n: len(universe(n)) for n in sorted(by_size)}
 
     # ---- disagreements with the model that the oracle did not already turn into a (position, move) hit
+    pinned = 0
     for meta in failing2:
         p = takio.mk_pos(meta["pos"])
-        if oracle_hits.get(pos_key(p)):
+        if oracle_hits.get(pos_key(p)) or pinned >= 3:
             continue
-        view = cl.model_view(cl.terms[cl.metas.index(meta)])
-        m = _first_acceptance_difference(p, view)
-        report(run, p, "the set of moves the rules accept differs from the model's (proved) legal set", m,
-               {"model_view": view}, reported)
-    for meta in failing:
+        pinned += 1
+        bad = pinpoint(run, p, pinned)
+        if not bad:
+            run.violation("legal-set-differs|" + pos_key(p),
+                          {"clause": "the set of moves the rules accept differs from the model's (proved) legal set",
+                           "position": meta["pos"], "model_view": cl.model_view(cl.terms[cl.metas.index(meta)])}, found_input=True)
+        for mm in bad[:MAX_REPORT]:
+            m = takio.mk_move(mm["move"])
+            clause = ("the rules accept a table-shaped move that the (proved) model of the rules refuses: the table entries accepted are not exactly the legal moves"
+                      if mm["impl_accepts"] else
+                      "the rules refuse a move that the (proved) model of the rules accepts: a legal move is not playable")
+            report(run, p, clause, m, {"impl_accepts": mm["impl_accepts"]}, reported)
+    run.extra["gen_list_disagreements"] = len(failing)
+    for meta in sorted(failing, key=lambda mt: mt["pos"]["size"])[:40]:
         p = takio.mk_pos(meta["pos"])
-        if oracle_hits.get(pos_key(p)):
+        if oracle_hits.get(pos_key(p)) or sum(reported.values()) > 0 or len(run.violations) >= 3:
             continue
         # the lists differ but no legal move is missing / doubled / outside the table at this position
         key = "gen-list-differs|" + pos_key(p)
@@ -502,9 +513,20 @@ def correspondence(run):
                             "model_view": cg.model_view(cg.terms[cg.metas.index(meta)])}, found_input=False)
 
 
-def _first_acceptance_difference(p, view):
-    """best effort: a move on which implementation and independent expectation differ, for the replay"""
-    return None
+def pinpoint(run, p, k):
+    """second stage for a position whose accepted set differs from the model's: one case per move, so that
+    the failing indices name the moves (only indices are read back from Coq)"""
+    n = p.size
+    moves = _wf_moves(n) + illformed(run.rng, p, 80)
+    cs = core.Cases(ID, f"pin{k}", HEADER + f"Definition thepos : position := {takio.c_pos(p)}.\n", "mv * bool",
+                    "fun mb => Bool.eqb (acc thepos (fst mb)) (snd mb)", shard=4000)
+    for m in moves:
+        r = try_move(p, m)
+        if r.startswith("crash"):
+            continue
+        cs.add(f"({takio.c_move(m)}, {cbool(r == 'ok')})", {"move": takio.j_move(m), "impl_accepts": r == "ok"})
+    failing, shard_fail, _ = cs.run()
+    return failing
 
 
 # --------------------------------------------------------------------------
